@@ -218,7 +218,17 @@ def handle (op : String) (j : Json) : Except String Json := do
           | .ok (.reuse i) => Json.arr #[.str "reuse", optIdx (some i)]
           | .ok (.create o) => Json.arr #[.str "create", optIdx o])
       | _ => pure Json.null
-    pure (Json.mkObj [("ref", refJ), ("decision", decJ)])
+    -- the whole step on `flow_id_states[f]` (`activateStepEv`): activation counters and arguments of every instance afterwards
+    let stepJ ← match j.getObjVal? "src" with
+      | .ok (.obj _) => do
+        let sj ← j.getObjVal? "src"
+        let src : Source := { flowId := ← (← sj.getObjVal? "flow").getStr?, done := ← (← sj.getObjVal? "done").getBool?,
+                              activated := ← (← sj.getObjVal? "activated").getNat? }
+        pure (match activateStepEv "f" params [] src insts ev with
+          | .error e => Json.str ("err:" ++ errToString e)
+          | .ok l => Json.arr (l.map fun a => Json.arr #[Json.num (JsonNumber.fromNat a.activated), ctxToJson a.arguments]).toArray)
+      | _ => pure Json.null
+    pure (Json.mkObj [("ref", refJ), ("decision", decJ), ("after", stepJ)])
   | _ => throw s!"unknown op C08.{op}"
 
 end NemoVerif.Drive.C08
